@@ -425,8 +425,9 @@ DESCRIPTION
 int
 Hclose(int32 file_id)
 {
-    filerec_t *file_rec; /* file record pointer */
-    int        ret_value = SUCCEED;
+    filerec_t *file_rec;               /* file record pointer */
+    int        close_status = SUCCEED; /* result of closing the underlying file */
+    int        ret_value    = SUCCEED;
 
     /* Clear errors and check args and all the boring stuff. */
     HEclear();
@@ -455,8 +456,9 @@ Hclose(int32 file_id)
             HGOTO_ERROR(DFE_INTERNAL, FAIL);
 
         /* otherwise, nothing should still be using this file, close it */
-        /* ignore any close error */
-        HI_CLOSE(file_rec->file);
+        /* buffered output reaches the file here: remember a close error, release
+           everything, and report the error at the end */
+        close_status = HI_CLOSE(file_rec->file);
 
         if (HTPend(file_rec) == FAIL)
             HGOTO_ERROR(DFE_INTERNAL, FAIL);
@@ -467,6 +469,9 @@ Hclose(int32 file_id)
 
     if (HAremove_atom(file_id) == NULL)
         HGOTO_ERROR(DFE_INTERNAL, FAIL);
+
+    if (close_status == FAIL)
+        HGOTO_ERROR(DFE_CANTCLOSE, FAIL);
 
 done:
     return ret_value;
